@@ -112,10 +112,10 @@ Qed.
 
 (* a file that starts with mappedHeader(meta), meta free of NUL, has that header *)
 Lemma spec_header_of_prefix bs meta h :
-  mapped_header meta = Some h -> has_prefix bs h = true -> ~ In 0 meta ->
+  mapped_header meta = Some h -> has_prefix bs h = true -> ~ In 0 meta -> len h + 2052 <= len bs ->
   spec_header bs = Some (len h, meta).
 Proof.
-  intros Hm Hp Hn. pose proof (mapped_header_len _ _ Hm) as (El & Hml & Hb & _ & Hmeta).
+  intros Hm Hp Hn Hfit. pose proof (mapped_header_len _ _ Hm) as (El & Hml & Hb & _ & Hmeta).
   pose proof (mapped_header_shape _ _ Hm) as Sh.
   pose proof Hp as Hp'. apply has_prefix_slice in Hp' as [Hl Hs].
   assert (G28 : get32 bs 28 = len h).
@@ -131,14 +131,17 @@ Proof.
       set (X := meta ++ zeros (len h - 32 - len meta)).
       assert (EX : len X = len h - 32) by (unfold X; rewrite len_app, len_zeros; lia).
       rewrite <- EX. apply slice_all. }
-  unfold spec_header. rewrite hdr_np_val. change (28 + 4) with 32.
+  unfold spec_header. rewrite hdr_np_val. change (28 + 4) with 32. change (4 * 512) with 2048.
   assert (Hpp : has_prefix bs c_hdrPrefix = true).
   { apply has_prefix_app in Hp as [t ->]. rewrite Sh. rewrite <- !app_assoc.
     apply has_prefix_app. eexists. reflexivity. }
   rewrite Hpp. cbn [negb]. rewrite G28.
   destruct (N.ltb_spec (len h) 32) as [|_]; [lia|]. cbn [orb].
-  destruct (N.ltb_spec (len bs) (len h)) as [|_]; [lia|].
-  rewrite Gm, cut_nul_app_zeros by exact Hn. rewrite Hm, Hp, N.eqb_refl. reflexivity.
+  destruct (N.ltb_spec 16384 (len h)) as [|_]; [lia|]. cbn [orb].
+  destruct (mapped_header_len _ _ Hm) as (_ & _ & _ & Hmod & _). rewrite Hmod.
+  change (0 =? 0) with true. cbn [negb orb].
+  destruct (N.ltb_spec (len bs) (len h + 4 + 2048)) as [|_]; [lia|].
+  rewrite Gm, cut_nul_app_zeros by exact Hn. reflexivity.
 Qed.
 
 Lemma prefix_len_field bs meta h :
@@ -253,7 +256,7 @@ Proof.
   { intros i Hi. unfold bs. rewrite getb_app_r by exact Hi. apply getb_zeros. }
   assert (Hp : has_prefix bs h = true) by (apply has_prefix_app; eexists; reflexivity).
   apply spec_read_intro; rewrite ?Hlen; try reflexivity; try lia.
-  - now apply spec_header_of_prefix.
+  - apply spec_header_of_prefix; try assumption. lia.
   - exact Hk.
   - symmetry. apply get32_zero. intros i Hi. apply Hz. lia.
   - apply Forall2_map_same. intros i Hi. unfold bucket_ok.
@@ -349,8 +352,9 @@ Section NewCounter.
   Lemma new_counter_wf : nc_post (fst (new_counter meta hdr bs name)) (snd (new_counter meta hdr bs name)).
   Proof.
     pose proof (spec_read_inv _ _ _ _ _ _ Hread) as (Eh & Ek & El & H1 & H2 & H3 & H4 & H5 & Ht & Hp).
-    pose proof (spec_header_inv _ _ _ Eh) as (hh & Hm & _ & Elen & _).
-    pose proof (mapped_header_len _ _ Hm) as (_ & _ & Hb & _). rewrite Elen in Hb.
+    pose proof (spec_header_inv _ _ _ Eh) as (_ & _ & Hb & _ & Hfit & _).
+    assert (H544 : hdr <= 544).
+    { destruct Hhandle as (h0 & Hm0 & _ & E0). destruct (mapped_header_len _ _ Hm0) as (_ & _ & X & _). lia. }
     pose proof (hash_lt name) as Hh.
     destruct (bucket_chain _ _ _ _ _ Ht Hh) as (c & Hc_in & Hc & Hc_hash).
     pose proof (spec_chain_length _ _ _ _ _ _ Hc) as Hclen.
